@@ -344,6 +344,30 @@ theorem charStatsSite_eq_spec (rows : CRows) (L site : Int) :
     rw [if_neg h1, if_pos h2, countsBy_eq_countTable, Proofs.StatsCount.upper_eq]
     rfl
 
+/-- **`Entropy(site, removegaps)`**: the occurrence map built row after row holds the naive counts, so the value
+is the sum `− Σ p log p` over the characters present in increasing order (same `Float` operations as the
+definition; what `math.Log` rounds to is outside the model), NaN on an empty selection, an error exactly
+outside `[0, L)` -/
+theorem entropy_eq_spec (rows : CRows) (L site : Int) (rg : Bool) :
+    entropy rows L site rg = Spec.entropy rows L site rg := by
+  unfold entropy Spec.entropy
+  by_cases h : site < 0 ∨ site ≥ L
+  · have h1 : (decide (site < 0) || decide (site ≥ L)) = true := by simpa using h
+    have h2 : ¬ (0 ≤ site ∧ site < L) := by omega
+    rw [if_pos h1, if_neg h2]
+  · have h1 : ¬ ((decide (site < 0) || decide (site ≥ L)) = true) := by simpa using h
+    have h2 : 0 ≤ site ∧ site < L := by omega
+    rw [if_neg h1, if_pos h2]
+    simp only [countsBy_eq_countTable]
+    have hc : ((columnAt rows site.toNat).filter fun s => s != OTHER && s != POINT && (!rg || s != GAP)) =
+        (Spec.column rows site.toNat).filter fun s => s != 42 && s != 46 && (!rg || s != 45) := rfl
+    rw [hc]
+    by_cases h0 : ((Spec.column rows site.toNat).filter fun s => s != 42 && s != 46 && (!rg || s != 45)).length = 0
+    · simp [h0]
+    · have : (((Spec.column rows site.toNat).filter fun s => s != 42 && s != 46 && (!rg || s != 45)).length == 0) = false := by
+        simpa using h0
+      simp [h0, this]
+
 /-- the per-site counts do not depend on the order of the rows -/
 theorem charStatsSite_row_order_independent (rows rows' : CRows) (hp : rows.Perm rows') (L site : Int) :
     charStatsSite rows L site = charStatsSite rows' L site := by
@@ -471,6 +495,83 @@ theorem wildcard_or_compatible_is_no_substitution (all : Byte) (ins : List Byte)
   · subst h; simp
   · subst h; simp
 
+/-! ## `MaxCharStats` / `Consensus` on the actual count entries of a column -/
+
+/-- the count entries of a column (Go: `mapstats`, here in order of first appearance) are the tally of the
+upper-cased characters -/
+theorem countUpper_eq_tally (col : List Byte) : countUpper col = Proofs.StatsDiff.tally (col.map toUpper) := by
+  unfold countUpper Proofs.StatsDiff.tally
+  rw [List.foldl_map]
+  rfl
+
+/-- their keys are distinct -/
+theorem countUpper_keys_nodup (col : List Byte) : ((countUpper col).map Prod.fst).Nodup := by
+  rw [countUpper_eq_tally, Proofs.StatsDiff.keys_tally]
+  exact Proofs.StatsDiff.firstOccurrences_nodup _
+
+/-- they hold the naive counts: for every byte value, the number of rows whose upper-cased character it is -/
+theorem countUpper_lookup (col : List Byte) (k : Byte) :
+    lookup k (countUpper col) =
+      if Spec.occ Spec.upperCase col k > 0 then some (Spec.occ Spec.upperCase col k) else none := by
+  rw [countUpper_eq_tally, Proofs.StatsDiff.lookup_tally]
+  have : (col.map toUpper).count k = Spec.occ Spec.upperCase col k := by
+    unfold Spec.occ
+    rw [List.count_eq_countP, List.countP_map]
+    rfl
+  rw [this]
+
+private theorem lookup_of_mem {l : List (Byte × Nat)} (hn : (l.map Prod.fst).Nodup) {k : Byte} {v : Nat}
+    (h : (k, v) ∈ l) : lookup k l = some v := by
+  induction l with
+  | nil => simp at h
+  | cons e t ih =>
+    obtain ⟨k', v'⟩ := e
+    simp only [List.map_cons, List.nodup_cons] at hn
+    rcases List.mem_cons.mp h with e | e
+    · simp only [Prod.mk.injEq] at e
+      obtain ⟨rfl, rfl⟩ := e
+      simp [lookup]
+    · have hne : (k == k') = false := by
+        simp only [beq_eq_false_iff_ne, ne_eq]
+        intro hk; subst hk
+        exact hn.1 (List.mem_map_of_mem (f := Prod.fst) e)
+      simp only [lookup, hne, Bool.false_eq_true, if_false]
+      exact ih hn.2 e
+
+/-- every entry has a positive count -/
+theorem countUpper_pos (col : List Byte) : ∀ e ∈ countUpper col, 0 < e.2 := by
+  intro e he
+  have h1 := lookup_of_mem (countUpper_keys_nodup col) (k := e.1) (v := e.2) he
+  rw [countUpper_lookup] at h1
+  split at h1
+  · simp only [Option.some.injEq] at h1; omega
+  · simp at h1
+
+/-- **`MaxCharStats` at a site is deterministic**: whatever the order in which the map of counts of that
+column is iterated, the character, its count and the total are those computed by the model -/
+theorem maxCharSite_order_independent (alphabet : Nat) (ig iN : Bool) (col : List Byte) (es : List (Byte × Nat))
+    (hp : es.Perm (countUpper col)) :
+    let all : Byte := if alphabet == AMINOACIDS then 88 else 78
+    let r := maxLoop ig iN all (toLower all) es (toUpper (col.headD 0), col.length, 0, 0)
+    (r.1, r.2.1, r.2.2.1) = maxCharSite alphabet ig iN col := by
+  intro all r
+  unfold maxCharSite
+  have hk : (es.map Prod.fst).Nodup := (hp.map Prod.fst).nodup_iff.mpr (countUpper_keys_nodup col)
+  have := maxLoop_perm ig iN all (toLower all) es (countUpper col) hp hk (toUpper (col.headD 0), col.length, 0, 0)
+  simp only [r, this]
+  rfl
+
+/-- **`MaxCharStats` at a site returns the naive majority**: when some character of the column is not
+excluded, the result is a count entry that no admissible entry beats (higher count, or the same count and
+a smaller byte) and `total` is the number of rows holding an admissible character; when every character is
+excluded the first character (upper-cased) and the number of rows are returned -/
+theorem maxCharSite_is_argmax (alphabet : Nat) (ig iN : Bool) (col : List Byte) :
+    let all : Byte := if alphabet == AMINOACIDS then 88 else 78
+    SelInv ig iN all (toLower all) (toUpper (col.headD 0)) col.length (countUpper col)
+      (maxLoop ig iN all (toLower all) (countUpper col) (toUpper (col.headD 0), col.length, 0, 0)) := by
+  intro all
+  exact maxLoop_is_argmax ig iN all (toLower all) (countUpper col) (countUpper_pos col) _ _
+
 /-! ## non-vacuity -/
 
 example : maxLoop false false 78 110 [(65, 2), (67, 2), (71, 1)] (71, 5, 0, 0) = (65, 2, 5, 2) := by decide
@@ -479,6 +580,7 @@ example : maxLoop false false 78 110 [(67, 2), (71, 1), (65, 2)] (71, 5, 0, 0) =
 /-- rows `AcN-`, `aGN-`, `CGT.`, `CCTA` (nucleotides) -/
 def exRows : CRows := [("a", [65, 99, 78, 45]), ("b", [97, 71, 78, 45]), ("c", [67, 71, 84, 46]), ("d", [67, 67, 84, 65])]
 
+example : maxCharSite 1 false false [65, 99, 67, 97] = (65, 2, 4) ∧ countUpper [65, 99, 67, 97] = [(65, 2), (67, 2)] := by decide
 example : charStatsSite exRows 4 1 = some [(67, 2), (71, 2)] := by decide
 example : Spec.charStatsSite exRows 4 1 = some [(67, 2), (71, 2)] := by decide
 example : charStatsSite exRows 4 4 = none ∧ charStatsSite exRows 4 (-1) = none := by decide
